@@ -617,10 +617,10 @@ def pwlCalibration (r : RawPwl) : Except Err PwlCfg := do
   if !r.missIn.isNone && !r.impute.truthy then ve
   else if !r.missOut.isNone && !r.impute.truthy then ve
   else if r.kp.isNone then ve
-  -- fix a22154b: 'equal_slopes' together with is_cyclic, and clamping of a non monotonic calibrator
+  -- fix a22154b: 'equal_slopes' together with is_cyclic (the clamp rejection of a22154b/35f6090 was
+  -- taken back by 0029d95: upstream's testAssertMonotonicity constructs such a layer)
   else if r.cyclic.truthy && r.init == .a (.str .equal_slopes) then ve
   else if r.mono.isNone then ve
-  else if clampRequested r && !c.mono.truthy then ve
   else if !convIsNone r.conv && r.kptype == .a (.str .learned_interior) then ve
   else pure c
 
